@@ -41,7 +41,7 @@ ASSUMPTIONS = [
     "whitespace and comments between a prefix and its form keep the cut 'after a prefix'",
     "REPL leg: a fresh hy.REPL per prefix, stdout/stderr discarded; executed atoms are unbound names/literals (NameError is caught by the REPL); "
     "run for the prefixes of the spaces marked repl (distinct prefixes per shard)",
-    "watchdog: 10 s per read counts as non-termination",
+    "watchdog: 30 s per read (60 s per REPL call) counts as non-termination",
 ]
 TIME_CAP = {"quick": 900, "thorough": 3000}
 
@@ -121,7 +121,7 @@ def observe_read(text):
     import hy
     from hy.reader.exceptions import LexException, PrematureEndOfInput
     try:
-        with time_limit(10):
+        with time_limit(30):
             forms = list(hy.read_many(text))
         return ("ok", len(forms))
     except PrematureEndOfInput as e:
@@ -145,8 +145,28 @@ class _Null:
 _NULL = _Null()
 
 
+_WARM = []
+
+
+def _warm():
+    """First use of hy.REPL in a process compiles hy/core/hy_repr.hy etc.;
+    do that outside any watchdog."""
+    if not _WARM:
+        _WARM.append(1)
+        _repl_once("1")
+
+
 def observe_repl(text):
     """('more',) | ('done',) | ('raised', 'Type: msg')"""
+    _warm()
+    try:
+        with time_limit(60):
+            return _repl_once(text)
+    except CaseTimeout:
+        return ("raised", "timeout")
+
+
+def _repl_once(text):
     import os
     import sys
     import hy
@@ -157,12 +177,11 @@ def observe_repl(text):
     sys.stdout = sys.stderr = _NULL
     try:
         try:
-            with time_limit(20):
-                repl = hy.REPL(locals={"__name__": name})
-                res = repl.runsource(text)
+            repl = hy.REPL(locals={"__name__": name})
+            res = repl.runsource(text)
             return ("more",) if res else ("done",)
         except CaseTimeout:
-            return ("raised", "timeout")
+            raise
         except BaseException as e:
             return ("raised", f"{type(e).__name__}: {e}")
     finally:
